@@ -592,7 +592,7 @@ def jobs(tier):
     for ch in chunks(ATOMS, 12):
         out.append({'types': ch})
         out.append({'types': ch, 'optional': True})
-    base = ['string', 'number', 'boolean', 'null', 'undefined', '1n', '{}', '() => void', 'Date', 'string[]', 'Al1', 'If1', 'any', 'Rec0["a"]', 'NonNullable<Al1>'] if tier == 'quick' else ATOMS
+    base = ['string', 'number', 'boolean', 'null', 'undefined', '1n', '{}', '() => void', 'Date', 'string[]', 'Al1', 'If1', 'any', 'Rec0["a"]', 'NonNullable<Al1>', 'If3["b"]', 'If0["m"]'] if tier == 'quick' else ATOMS
     def par(a):
         return '(%s)' % a if ('=>' in a or ' | ' in a) else a
     unions = ['%s | %s' % (par(a), par(b)) for a, b in itertools.product(base, repeat=2) if a != b]
